@@ -88,6 +88,8 @@ func c01Devs() []c01Dev {
 		{"root-sha512(longer-header)", func(s *cargen.Shape) { s.RootSha512 = true }},
 		{"block-cid-sha512(68-byte-cid:must-fail-or-be-right)", func(s *cargen.Shape) { s.Blocks[0].CidSha512 = true }},
 		{"tx-cid-sha512(68-byte-cid:must-fail-or-be-right)", tx0(func(t *cargen.TxShape) { t.CidSha512 = true })},
+		{"block-cid-sha1(24-byte-cid)", func(s *cargen.Shape) { s.Blocks[0].CidShort = true }},
+		{"tx-cid-sha1(24-byte-cid)", tx0(func(t *cargen.TxShape) { t.CidShort = true })},
 		{"header-version-as-2-byte-int", func(s *cargen.Shape) { s.HeaderWide = "header-wide-int" }},
 		{"two-subsets", func(s *cargen.Shape) { s.SubsetEvery = 1 }},
 		{"no-position-index", tx0(func(t *cargen.TxShape) { t.NoIndex = true })},
